@@ -18,7 +18,7 @@ RULE = ("random parent-closed topologies (2..12 nodes, depth <= 4; chains, fans,
         "no-misdelivery are judged. Non-trivial: >=1 frame crossed the air and quiescence was "
         "reached; distinct = distinct (topology shape, src/dst levels, hops, length class, "
         "type class, profile class, medium).")
-RULE += (" Later rounds added: re-used header objects (identity = origin, frame id, embedded message id), a relay whose application stops reading, multicast_level re-assigned on relays, systematic sweeps (every type over a 3-hop route, every length over a direct link, a deep tree with level overrides), peek() before read(), networks whose address prefix and suffix bytes were assigned after construction, senders whose application is busy for 15..60 ms after the call (what came back for them waits in the radio).")
+RULE += (" Later rounds added: nodes on the route configured with allow_multicast off (sweep over last/first router, ends, everybody; a third of the random topologies); re-used header objects (identity = origin, frame id, embedded message id), a relay whose application stops reading, multicast_level re-assigned on relays, systematic sweeps (every type over a 3-hop route, every length over a direct link, a deep tree with level overrides), peek() before read(), networks whose address prefix and suffix bytes were assigned after construction, senders whose application is busy for 15..60 ms after the call (what came back for them waits in the radio).")
 REQUIRED = {"delivered_exactly_once": 300, "bystanders_clean": 300, "write_true": 300,
             "onair_le_32": 300, "c07_listening": 3000}
 ASSUMPTIONS = ["ideal medium (no loss, no collisions) and homogeneous MCU profiles for the "
@@ -55,6 +55,7 @@ def gen_cases(ctx):
     yield from gen_sweeps(ctx)
     rng = ctx.sub_rng("c05")
     rng2 = ctx.sub_rng("c05b")  # later additions draw from their own stream
+    rng3 = ctx.sub_rng("c05c")
     ntop = 48 if ctx.tier == "quick" else 4000
     tperm = list(range(128))
     rng.shuffle(tperm)
@@ -141,7 +142,9 @@ def gen_cases(ctx):
                # multicast_level re-assigned on some nodes (it has no say in unicast routing)
                "mlevel": {str(a): rng.choice([l for l in range(0, 5) if l != net_ref.level(a)])
                           for a in nodes if i % 3 == 1 and kinds[a] != "mesh" and rng.random() < 0.35},
-               "id_start": {str(a): rng.choice([0, 0, 7, 65530]) for a in nodes}}
+               "id_start": {str(a): rng.choice([0, 0, 7, 65530]) for a in nodes},
+               # some nodes run with allow_multicast off
+               "mc_off": [a for a in nodes if i % 3 == 2 and kinds[a] != "mesh" and rng3.random() < 0.4]}
 
 
 def gen_sweeps(ctx):
@@ -165,6 +168,16 @@ def gen_sweeps(ctx):
         yield dict(base, nodes=deep, kinds={str(a): "net" for a in deep}, id_start={str(a): 0 for a in deep},
                    msgs=msgs, seed=980 + k, mlevel=ml,
                    profiles={str(a): N.rand_profile(ctx.sub_rng("c05d", k, a), base=40000) for a in deep})
+    # nodes on the route configured with allow_multicast off (they do not listen on the level address;
+    # routing and NETWORK_ACKs are as before): last router, first router, both ends, everybody
+    for k, off in enumerate(([0o12], [0o2], [0o112], [0o2, 0o12, 0o112], [0o1, 0o3112], deep[1:])):
+        msgs = []
+        for j, (a, b) in enumerate(((0o1, 0o112), (0o112, 0o1), (0, 0o3112), (0o3112, 0), (0o1, 0o3112), (0o12, 0o3112),
+                                    (0o3112, 0o1), (0, 0o112))):
+            msgs.append({"src": a, "dst": b, "len": [5, 20, 0, 24][j % 4], "type": [66, 1, 127, 65, 100][j % 5]})
+        yield dict(base, nodes=deep, kinds={str(a): "net" for a in deep}, id_start={str(a): 0 for a in deep},
+                   msgs=msgs, seed=990 + k, mc_off=off,
+                   profiles={str(a): N.rand_profile(ctx.sub_rng("c05m", k, a), base=40000) for a in deep})
     lens = list(range(145))
     for k in range(5):
         msgs = [{"src": 0o1 if n % 2 else 0, "dst": 0 if n % 2 else 0o1, "len": n, "type": [1, 2, 7, 64, 65, 127][n % 6]}
@@ -201,6 +214,10 @@ def _run(ctx, case, net):
             nn.key = a
         if a in case["frag_off"]:
             nn.obj.fragmentation = False
+        if a in case.get("mc_off", []):
+            nn.obj.allow_multicast = False
+            nn.obj.node_address = a  # the documented way to apply it
+            ctx.count("nodes_with_multicasting_off")
         if a == case.get("stall"):
             nn.lazy_ns = 1 << 60  # its application reads nothing until the final drain
         if str(a) in case.get("mlevel", {}):
